@@ -47,8 +47,14 @@ fn main() {
         "C05" => suites_serve::c05(&mut em, thorough, seed),
         "C06" => suites_body::c06(&mut em, thorough, seed),
         "C07" => suites_body::c07(&mut em, thorough, seed),
-        "C08" => suites_chunk::c08(&mut em, thorough, seed),
-        "C09" => suites_chunk::c09(&mut em, thorough, seed),
+        "C08" => {
+            suites_chunk::c08(&mut em, thorough, seed);
+            suites_sched::run_small_for_c08(&mut em, thorough);
+        }
+        "C09" => {
+            suites_chunk::c09(&mut em, thorough, seed);
+            suites_sched::run_small_for_c09(&mut em, thorough);
+        }
         "C10" => {
             suites_sched::run_suite(&mut em, thorough, seed, false, false);
             suites_sched::run_gz_suite(&mut em, thorough);
